@@ -183,7 +183,7 @@ impl Check for C07 {
     }
 
     fn rule(&self) -> String {
-        "case = World with a real Server and 1-4 (quick) real Clients whose configurations are generated independently (compatible or not), each on its own link with per-datagram fates for the handshake frames (delay up to 3 s, drop, duplicate up to 5 s apart, corrupt), starting at generated ticks (simultaneous handshakes), plus forged handshake / disconnect frames injected at generated moments with spoofed source addresses (a client's address towards the server, the server's address towards a client) carrying random nonces, genuine nonces +-1, the genuine current nonce, or the nonce of an earlier attempt. After Connect each client runs an ordered echo stream through the server, and the server may push a burst of Reliable packets larger than the client's advertised receive allocation. Monitor oracle over wire and events: server Connect(a) only after an ACK from a carrying the nonce of the latest SYN-ACK sent to a was delivered; client Connect only after a SYN-ACK echoing its SYN nonce was delivered; at most one Connect per client and per server-side connection; first data frame ids equal the advertised nonces; refusals carry the error the documented rule demands and the client reports the same error; no Error event on a client that has connected unless it is a Timeout; echo streams arrive in order without gaps for Reliable packets; bytes per second on the wire stay within min(local max_send_rate, peer max_receive_rate); the bytes the server has outstanding towards a client (fragment-rounded, judged from the wire and the acks delivered) never exceed the max_receive_alloc that client advertised. Non-trivial = at least one handshake frame was lost, duplicated, corrupted or forged. Distinct = distinct serialised case.".into()
+        "case = World with a real Server and 1-4 (quick) real Clients whose configurations are generated independently (compatible or not), each on its own link with per-datagram fates for the handshake frames (delay up to 3 s, drop, duplicate up to 5 s apart, corrupt), starting at generated ticks (simultaneous handshakes), plus forged handshake / disconnect frames injected at generated moments with spoofed source addresses (a client's address towards the server, the server's address towards a client) carrying random nonces, genuine nonces +-1, the genuine current nonce, or the nonce of an earlier attempt. After Connect each client runs an ordered echo stream through the server, and the server may push a burst of Reliable packets larger than the client's advertised receive allocation. Monitor oracle over wire and events: server Connect(a) only after an ACK from a carrying the nonce of the latest SYN-ACK sent to a was delivered; client Connect only after a SYN-ACK echoing its SYN nonce was delivered; at most one Connect per client and per server-side connection; the server's Connect never precedes the client's, and once a client is connected and frames are delivered promptly the server reports its Connect within three SYN-ACK repeat intervals (as long as its 22 s handshake budget and the client's timeout allow); first data frame ids equal the advertised nonces; refusals carry the error the documented rule demands and the client reports the same error; no Error event on a client that has connected unless it is a Timeout; echo streams arrive in order without gaps for Reliable packets; bytes per second on the wire stay within min(local max_send_rate, peer max_receive_rate); the bytes the server has outstanding towards a client (fragment-rounded, judged from the wire and the acks delivered) never exceed the max_receive_alloc that client advertised. Non-trivial = at least one handshake frame was lost, duplicated, corrupted or forged. Distinct = distinct serialised case.".into()
     }
 
     fn assumptions(&self) -> Vec<String> {
@@ -213,6 +213,7 @@ impl Check for C07 {
         let mut forged_current_error: std::collections::HashSet<SocketAddr> = std::collections::HashSet::new();
         let mut forged_disconnect: std::collections::HashSet<SocketAddr> = std::collections::HashSet::new();
         let mut forged_current_synack: std::collections::HashSet<SocketAddr> = std::collections::HashSet::new();
+        let mut forged_any: std::collections::HashSet<SocketAddr> = std::collections::HashSet::new();
         let dt = c.dt_us.max(1000) as u64;
 
         for tick in 0..c.ticks {
@@ -262,6 +263,7 @@ impl Check for C07 {
                     FKind::Disconnect => Frame::DisconnectFrame(DisconnectFrame {}),
                     FKind::DisconnectAck => Frame::DisconnectAckFrame(DisconnectAckFrame {}),
                 };
+                forged_any.insert(caddr);
                 // bookkeeping: forged frames that happen to carry the genuine nonce are on-path attacks
                 if f.to_server {
                     if matches!(f.kind, FKind::Ack) && Some(nonce) == sn {
@@ -434,6 +436,45 @@ impl Check for C07 {
                 let terminals = w.server_events.iter().filter(|(_, _, e)| matches!(e, SEv::Disconnect(x) | SEv::Error(x, _) if x == &a)).count();
                 if terminals == 0 {
                     return CaseResult::fail("oracle:c07:server_connect_twice", format!("server reported Connect({a}) {} times without a terminal event in between", server_connects[&a]));
+                }
+            }
+            // exactly one Connect on EACH side: the server's Connect follows the client's (the client acknowledges the
+            // SYN-ACK that connects it), and once the client is connected and frames flow, the server's pending
+            // entry must be promoted by one of the re-acknowledged SYN-ACK repeats (2 s apart)
+            if !forged_any.contains(&a) {
+                let c_conn = slot.events.iter().find(|(_, _, e)| matches!(e, CEv::Connect)).map(|p| (p.0, p.1));
+                let s_conn = w.server_events.iter().find(|(_, _, e)| matches!(e, SEv::Connect(x) if x == &a)).map(|p| (p.0, p.1));
+                if let Some((sseq, st)) = s_conn {
+                    if c_conn.map_or(true, |(cseq, _)| cseq > sseq) {
+                        return CaseResult::fail("oracle:c07:server_connected_before_client", format!("server reported Connect({a}) at t={st} us although client {k} had not connected (client Connect: {:?})", c_conn));
+                    }
+                }
+                if let (Some((_, tc)), None) = (c_conn, s_conn) {
+                    // time from which every datagram between the two was delivered promptly
+                    let mut t0 = tc;
+                    for r in w.wire.iter().filter(|r| (r.from == a && r.to == w.server_addr) || (r.from == w.server_addr && r.to == a)) {
+                        let late = match &r.fate {
+                            Fate::Deliver(d) => if *d > 100_000 { Some(*d as u64) } else { None },
+                            Fate::Dup(x, y) => Some((*x).max(*y) as u64),
+                            _ => Some(0),
+                        };
+                        if let Some(l) = late {
+                            t0 = t0.max(r.t_us + l);
+                        }
+                    }
+                    let lat = (c.clients[k].latency_us[0] + c.clients[k].latency_us[1]) as u64;
+                    let need = t0 + 3 * 2_000_000 + 1_000_000 + 4 * lat + 4 * dt;
+                    let first_synack = w.wire.iter().find(|r| r.from == w.server_addr && r.to == a && matches!(Frame::read(&r.bytes), Some(Frame::HandshakeSynAckFrame(_)))).map(|r| r.t_us);
+                    let refused = w.wire.iter().any(|r| r.from == w.server_addr && r.to == a && matches!(Frame::read(&r.bytes), Some(Frame::HandshakeErrorFrame(_))));
+                    let client_ended = slot.events.iter().find(|(_, _, e)| matches!(e, CEv::Disconnect | CEv::Error(_))).map(|p| p.1);
+                    let server_still_trying = first_synack.map_or(false, |t| need <= t + 20_000_000);
+                    if w.now_us >= need && server_still_trying && !refused && need <= tc + 18_000_000 && client_ended.map_or(true, |t| t > need) {
+                        return CaseResult::fail(
+                            "oracle:c07:server_never_connected",
+                            format!("client {k} reported Connect at t={tc} us; from t={t0} us on every datagram between it and the server was delivered promptly, yet by t={} us the server had not reported Connect({a}) (first SYN-ACK at {:?} us, SYN-ACK repeats are 2 s apart and an active client re-acknowledges them)", w.now_us, first_synack),
+                        );
+                    }
+                    classes.push("client_connected_server_not_yet");
                 }
             }
             // sequence-number agreement
